@@ -170,6 +170,8 @@ def edge_dump(d, module, cfg_text, timeout=900):
             if len(parts) != 4:
                 raise ToolError("unparsable EDGE line: " + line[:200])
             edges.append((parts[1], json.loads(parts[2]), parts[3]))
+    if edges and init not in {e[0] for e in edges}:
+        raise ToolError(f"edge dump of {module}: the initial node is not the source of any edge (INIT line and CanonS out of step)")
     return edges, tlc_stats(out), meaning, init
 
 
